@@ -15,7 +15,12 @@ Open Scope Z_scope.
    (Base/PyExt.v py_frac_scaled: trusted, exact for |a| < 2^53). *)
 Theorem tint_decode_bit_window_C05 : forall idx R C spp,
   t_decode_bit_window idx R C spp = Ok (R * C * spp, (idx * (R * C * spp)) mod 8).
-Proof. intros. reflexivity. Qed.
+Proof.
+  intros.
+  assert (H : forall a b c d : Z, a = c -> b = d -> @Ok (Z * Z) (a, b mod 8) = Ok (c, d mod 8))
+    by (intros; subst; reflexivity).
+  unfold t_decode_bit_window, ret, py_frac_scaled. cbv zeta. apply H; ring.
+Qed.
 Print Assumptions tint_decode_bit_window_C05.
 
 (* hence the model's single-bit decode is: the window computed by the code, cut out of the unpacked bits *)
